@@ -734,5 +734,29 @@ def r9_memo(chk: Check) -> None:
                          "MEMO-KEY(anchor modules of this property): which operations are selected is decided from the current filters and the current schema: a cache keyed by less than that answers for another filter set / another schema", floor=0)
 
 
+def r10_pointer_escape_order(chk: Check) -> None:
+    chk.rule("C07.R10", "ORDER(JSON-pointer escapes, RFC 6901 section 4): a reference token is decoded by replacing `~1` with `/` FIRST and `~0` with `~` SECOND, and encoded the other way round (`~` -> `~0` first, `/` -> `~1` second), at every place in the package that spells these escapes - with the order swapped the token `~01` (a literal `~1`) decodes to `/`, so a lookup by reference / pointer resolves to a different operation or definition than the document names, or to none", floor=4)
+    P = chk.project
+    n = 0
+    for fn in P.all_functions():
+        if isinstance(fn.node, ast.Lambda):
+            continue
+        for c in body_calls(fn, into_nested=False):
+            # outer .replace(...) applied to an inner .replace(...)
+            if not (last_attr(c) == "replace" and isinstance(c.func, ast.Attribute) and isinstance(c.func.value, ast.Call) and last_attr(c.func.value) == "replace" and len(c.args) == 2 and len(c.func.value.args) == 2):
+                continue
+            first = (const_str(c.func.value.args[0]), const_str(c.func.value.args[1]))
+            second = (const_str(c.args[0]), const_str(c.args[1]))
+            pairs = {first, second}
+            if pairs == {("~1", "/"), ("~0", "~")}:
+                n += 1
+                chk.decide(first == ("~1", "/"), "C07.R10", fn, f"decode order in {fn.name}: `~1` before `~0`", f"`{unparse(c, 70)}` decodes `~0` first: the token `~01` becomes `~1` and then `/` instead of the literal `~1`", fn.loc(c))
+            elif pairs == {("~", "~0"), ("/", "~1")}:
+                n += 1
+                chk.decide(first == ("~", "~0"), "C07.R10", fn, f"encode order in {fn.name}: `~` before `/`", f"`{unparse(c, 70)}` encodes `/` first: the `~` of the `~1` it just produced is escaped again", fn.loc(c))
+    if n < 4:
+        chk.undecided("C07.R10", "<discovery>", f"escape chains={n}", "fewer ~0/~1 replace chains than confirmed by hand (4)")
+
+
 def rules(tier: str) -> list:  # type: ignore[type-arg]
-    return [r1_enumerators, r1b_should_skip, r1c_filterset, r2_links, r3_entry_points, r4_statistic, r4b_filter_input, r4c_statistic_isolates_operations, r5_cli_plumbing, r6_filter_ownership, r7_documented_methods, r8_matcher_siblings, rfwd_forwarding, r9_memo]
+    return [r1_enumerators, r1b_should_skip, r1c_filterset, r2_links, r3_entry_points, r4_statistic, r4b_filter_input, r4c_statistic_isolates_operations, r5_cli_plumbing, r6_filter_ownership, r7_documented_methods, r8_matcher_siblings, rfwd_forwarding, r9_memo, r10_pointer_escape_order]
